@@ -46,6 +46,9 @@ ARMED = {
     "sweep_one": lambda r: r.pre.get("cursor") != "G",
     "link": armed_default,
     "drop_all": armed_default,
+    "weak_resurrect": lambda r: r.pre["phase"] == "Mark" or r.pre["live"] == 0,
+    "gc_is_dead": lambda r: r.pre["phase"] == "Mark",
+    "weak_is_dead": lambda r: r.pre["phase"] == "Mark",
 }
 
 SPECS = {
@@ -64,6 +67,13 @@ SPECS = {
     "sweep_one": spec.spec_sweep_one,
     "link": spec.spec_link,
     "drop_all": spec.spec_drop_all,
+    "weak_upgrade": spec.spec_weak_upgrade,
+    "weak_is_dropped": spec.spec_weak_is_dropped,
+    "weak_is_dead": spec.spec_is_dead,
+    "gc_is_dead": spec.spec_is_dead,
+    "weak_resurrect": spec.spec_weak_resurrect,
+    "adopt": spec.spec_adopt,
+    "root_paths": spec.spec_root_paths,
 }
 
 
